@@ -70,22 +70,34 @@ Qed.
 (* readable corollaries *)
 Lemma dep_ok_fields : forall c s, dep_ok c s = true ->
   (notified s <= 1)%nat /\ bad s = false /\
-  (ddone c s = true -> notified s = 1%nat /\ drdy s = est_true c) /\ -3 <= wn s <= 2.
+  (ddone c s = true -> notified s = 1%nat /\ drdy s = est_true c) /\ -3 <= wn s <= 2 /\
+  (notified s = 1%nat -> really_ready c s = true).
 Proof.
   intros c s H. unfold dep_ok in H.
-  repeat match goal with H : _ && _ = true |- _ => apply andb_prop in H; destruct H end.
-  repeat split.
-  - now apply Nat.leb_le.
-  - now apply negb_true_iff.
-  - destruct (ddone c s); [|discriminate]. simpl in *. apply andb_prop in H3. destruct H3 as [Ha Hb]. now apply Nat.eqb_eq.
-  - destruct (ddone c s); [|discriminate]. simpl in *. apply andb_prop in H3. destruct H3 as [Ha Hb]. now apply eqb_prop.
-  - now apply Z.leb_le.
-  - now apply Z.leb_le.
+  apply andb_prop in H; destruct H as [H H7]. apply andb_prop in H; destruct H as [H H6].
+  apply andb_prop in H; destruct H as [H H5]. apply andb_prop in H; destruct H as [H H4].
+  apply andb_prop in H; destruct H as [H H3]. apply andb_prop in H; destruct H as [H1 H2].
+  split; [now apply Nat.leb_le|]. split; [now apply negb_true_iff|]. split; [|split].
+  - intro Hd. rewrite Hd in H3. simpl in H3. apply andb_prop in H3. destruct H3 as [Ha Hb].
+    split; [now apply Nat.eqb_eq | now apply eqb_prop].
+  - split; [now apply Z.leb_le | now apply Z.leb_le].
+  - intro Hn. rewrite Hn in H7. simpl in H7. exact H7.
 Qed.
 
 Theorem af_dep_exactly_once : forall c s, DReach c s ->
-  (notified s <= 1)%nat /\ bad s = false /\ (ddone c s = true -> notified s = 1%nat /\ drdy s = est_true c) /\ -3 <= wn s <= 2.
+  (notified s <= 1)%nat /\ bad s = false /\ (ddone c s = true -> notified s = 1%nat /\ drdy s = est_true c) /\ -3 <= wn s <= 2 /\
+  (notified s = 1%nat -> really_ready c s = true).
 Proof. intros c s H. apply dep_ok_fields. now apply af_dep_protocol. Qed.
+
+(* every protocol step tells the vertex at most once more, or seals exactly one data and tells nobody *)
+Theorem af_dep_steps : forall c s t s', DReach c s -> dstep c s t = Some s' -> dstep_ok s s' = true.
+Proof.
+  intros c s t s' Hr Hst.
+  assert (Hall : dclosed c (dall c) = true /\ dsteps_ok c (dall c) = true) by (destruct c as [[|] [|]]; vm_compute; split; reflexivity).
+  destruct Hall as [Hc Hs]. pose proof (dclosed_complete c _ Hc s Hr) as Hm. apply dmem_in in Hm.
+  unfold dsteps_ok in Hs. rewrite forallb_forall in Hs. specialize (Hs s Hm). rewrite forallb_forall in Hs.
+  apply Hs. eapply dstep_in_succs; eauto.
+Qed.
 
 (* a notification implies the dependency is really ready: `bad` records any violation at the moment of notify *)
 Lemma notify_bad : forall c s r, really_ready c s = false -> bad (notify c s r) = true.
@@ -804,4 +816,607 @@ Example af_run_example :
   let s := erun (proc_fn ex_flags) ex_g ex_pre [2%nat] (einit) ex_sched in
   fin s = Some 0 /\ dv s 2%nat = Some None /\ ran s 0%nat = Some (VRun [] [Some 1]) /\
   sref (proc_fn ex_flags) ex_g ex_pre 2%nat = Some None.
+Proof. vm_compute. repeat split; reflexivity. Qed.
+
+(* ======================================================================================== *)
+(* E. one vertex, n dependencies: DEP x VTX composed; the guard ENG assumes                   *)
+(* ======================================================================================== *)
+Definition XReach (cs : list dcfg) (s : xst) : Prop := reachable xst (xstep cs) (xinit (length cs)) s.
+
+Lemma vinv_invoked_all : forall n s, vinv n s -> vinvoked s = 1%nat -> forall i, (i < n)%nat -> In i (vnot s).
+Proof.
+  intros n s (Hnd & Hbd & Hr & Hf & Hlen & Hw & Hinv) H1 i Hi.
+  pose proof (bounded_nodup_length n _ Hnd Hbd) as Hle.
+  rewrite Hinv in H1. destruct (vw s =? 0) eqn:E0; [|discriminate]. apply Z.eqb_eq in E0.
+  apply (full_nodup_all n); try assumption. destruct (vended s); lia.
+Qed.
+
+Lemma vinv_all_invoked : forall n s, vinv n s -> vended s = true -> (forall i, (i < n)%nat -> In i (vnot s)) -> vinvoked s = 1%nat.
+Proof.
+  intros n s (Hnd & Hbd & Hr & Hf & Hlen & Hw & Hinv) He Hall.
+  pose proof (bounded_nodup_length n _ Hnd Hbd) as Hle.
+  assert (Hge : (n <= length (vnot s))%nat).
+  { assert (X : incl (seq 0 n) (vnot s)) by (intros i Hi; apply in_seq in Hi; apply Hall; lia).
+    pose proof (NoDup_incl_length (seq_NoDup n 0) X) as Y. now rewrite seq_length in Y. }
+  rewrite Hinv. rewrite He in Hw. destruct (vw s =? 0) eqn:E0; [reflexivity|]. apply Z.eqb_neq in E0. lia.
+Qed.
+
+Lemma vinv_le1 : forall n s, vinv n s -> (vinvoked s <= 1)%nat.
+Proof. intros n s (_ & _ & _ & _ & _ & _ & Hinv). rewrite Hinv. destruct (_ =? 0); lia. Qed.
+
+Lemma lset_length : forall A (l : list A) i x, length (lset i x l) = length l.
+Proof. induction l as [|y l IH]; intros [|i] x; cbn; auto. Qed.
+Lemma lset_nth_same : forall A (l : list A) i x, (i < length l)%nat -> nth_error (lset i x l) i = Some x.
+Proof. induction l as [|y l IH]; intros [|i] x H; cbn in *; try lia; [reflexivity | apply IH; lia]. Qed.
+Lemma lset_nth_other : forall A (l : list A) i j x, j <> i -> nth_error (lset i x l) j = nth_error l j.
+Proof. induction l as [|y l IH]; intros [|i] [|j] x H; cbn; try reflexivity; try congruence. apply IH. congruence. Qed.
+Lemma lset_same : forall A (l : list A) i x, nth_error l i = Some x -> lset i x l = l.
+Proof. induction l as [|y l IH]; intros [|i] x H; cbn in *; try discriminate; [congruence | f_equal; now apply IH]. Qed.
+Lemma lset_map : forall A B (h : A -> B) (l : list A) i x, map h (lset i x l) = lset i (h x) (map h l).
+Proof. induction l as [|y l IH]; intros [|i] x; cbn; try reflexivity. f_equal. apply IH. Qed.
+
+Definition xinv (cs : list dcfg) (s : xst) : Prop :=
+  length (xdeps s) = length cs /\
+  (forall i c d, nth_error cs i = Some c -> nth_error (xdeps s) i = Some d -> DReach c d) /\
+  vinv (length cs) (xv s) /\
+  (forall i d, nth_error (xdeps s) i = Some d -> (In i (vnot (xv s)) <-> notified d = 1%nat)) /\
+  (vended (xv s) = true -> xnext s = length cs) /\ (xnext s <= length cs)%nat.
+
+Lemma xinv_init : forall cs, (1 <= length cs)%nat -> xinv cs (xinit (length cs)).
+Proof.
+  intros cs Hn. unfold xinv, xinit; cbn [xdeps xv xnext].
+  split; [apply repeat_length|]. split; [|split; [now apply vinv_init|split; [|split; [discriminate | lia]]]].
+  - intros i c d _ Hd. apply nth_error_In in Hd. apply repeat_spec in Hd. subst d. now exists [].
+  - intros i d Hd. apply nth_error_In in Hd. apply repeat_spec in Hd. subst d. cbn. split; [tauto | discriminate].
+Qed.
+
+(* what a protocol step of one dependency means for the vertex *)
+Lemma dep_update_facts : forall c d t d', DReach c d -> dstep c d t = Some d' ->
+  DReach c d' /\
+  ((notified d <? notified d')%nat = true -> notified d = 0%nat /\ notified d' = 1%nat) /\
+  ((notified d <? notified d')%nat = false -> notified d' = notified d).
+Proof.
+  intros c d t d' Hr Hst.
+  assert (Hr' : DReach c d') by (eapply reachable_step; eauto).
+  pose proof (af_dep_steps c d t d' Hr Hst) as Hok. unfold dstep_ok in Hok. apply andb_prop in Hok. destruct Hok as [Hn _].
+  destruct (dep_ok_fields c d' (af_dep_protocol c d' Hr')) as (Hle & _).
+  apply orb_prop in Hn. split; [assumption|]. split; intro Hlt.
+  - apply Nat.ltb_lt in Hlt. destruct Hn as [Hn|Hn]; apply Nat.eqb_eq in Hn; lia.
+  - apply Nat.ltb_ge in Hlt. destruct Hn as [Hn|Hn]; apply Nat.eqb_eq in Hn; lia.
+Qed.
+
+Lemma vstep_ready_raw : forall n s i, (i < n)%nat -> ~ In i (vnot s) -> vstep n s (VReady i) = Some (v_ready s i).
+Proof.
+  intros n s i Hi Hn. cbn [vstep]. assert ((i <? n)%nat = true) by now apply Nat.ltb_lt.
+  assert (nmem i (vnot s) = false) by (destruct (nmem i (vnot s)) eqn:E; [apply nmem_in in E; contradiction | reflexivity]).
+  rewrite H, H0. reflexivity.
+Qed.
+Lemma vstep_actret_raw : forall n s i, (i < n)%nat -> ~ In i (vnot s) -> vended s = false -> vstep n s (VActRet i) = Some (v_actret s i).
+Proof.
+  intros n s i Hi Hn He. cbn [vstep]. assert ((i <? n)%nat = true) by now apply Nat.ltb_lt.
+  assert (nmem i (vnot s) = false) by (destruct (nmem i (vnot s)) eqn:E; [apply nmem_in in E; contradiction | reflexivity]).
+  unfold v_actret. rewrite H, H0, He. reflexivity.
+Qed.
+Lemma vstep_actend_raw : forall n s, vended s = false -> vstep n s VActEnd = Some (v_actend s).
+Proof. intros n s He. cbn [vstep]. rewrite He. unfold v_actend. destruct (vertex_finished_pos (vfin s)); reflexivity. Qed.
+
+(* updating dependency i (protocol step d -> d') and, iff it told the vertex, the vertex counter by `op` *)
+Lemma xinv_dep_upd : forall cs s i c d t d' (op : vst -> nat -> vst) nx,
+  (1 <= length cs)%nat -> Z.of_nat (length cs) < 2 ^ 64 -> xinv cs s ->
+  nth_error cs i = Some c -> nth_error (xdeps s) i = Some d -> dstep c d t = Some d' ->
+  (forall v, vnot (op v i) = i :: vnot v /\ vended (op v i) = vended v) ->
+  ((notified d <? notified d')%nat = true -> ~ In i (vnot (xv s)) -> exists ev, vstep (length cs) (xv s) ev = Some (op (xv s) i)) ->
+  (vended (xv s) = true -> nx = length cs) -> (nx <= length cs)%nat ->
+  xinv cs {| xdeps := lset i d' (xdeps s); xv := if (notified d <? notified d')%nat then op (xv s) i else xv s; xnext := nx |}.
+Proof.
+  intros cs s i c d t d' op nx Hn Hbig (Hlen & Hreach & Hv & Hiff & Hend & Hnx) Hc Hd Hst Hop Hvs Hnx1 Hnx2.
+  destruct (dep_update_facts c d t d' (Hreach i c d Hc Hd) Hst) as (Hr' & Hlt & Hge).
+  assert (Hil : (i < length (xdeps s))%nat) by (apply nth_error_Some; congruence).
+  unfold xinv; cbn [xdeps xv xnext].
+  split; [now rewrite lset_length|]. split; [|split; [|split; [|split]]].
+  - intros j c0 d0 Hc0 Hd0. destruct (Nat.eq_dec j i) as [->|Hne].
+    + rewrite lset_nth_same in Hd0 by assumption. inversion Hd0; subst d0. rewrite Hc in Hc0. inversion Hc0; subst c0. exact Hr'.
+    + rewrite lset_nth_other in Hd0 by assumption. eauto.
+  - destruct (notified d <? notified d')%nat eqn:E; [|exact Hv].
+    destruct (Hlt eq_refl) as [H0 H1].
+    assert (Hni : ~ In i (vnot (xv s))) by (intro X; apply (Hiff i d Hd) in X; lia).
+    destruct (Hvs eq_refl Hni) as [ev Hev]. eapply vinv_step; eauto.
+  - intros j d0 Hd0. destruct (notified d <? notified d')%nat eqn:E.
+    + destruct (Hlt eq_refl) as [H0 H1]. destruct (Hop (xv s)) as [Hvn _]. rewrite Hvn.
+      destruct (Nat.eq_dec j i) as [->|Hne].
+      * rewrite lset_nth_same in Hd0 by assumption. inversion Hd0; subst d0. split; [intros _; exact H1 | intros _; now left].
+      * rewrite lset_nth_other in Hd0 by assumption. rewrite <- (Hiff j d0 Hd0). split; [intros [X|X]; [congruence | exact X] | intro X; now right].
+    + destruct (Nat.eq_dec j i) as [->|Hne].
+      * rewrite lset_nth_same in Hd0 by assumption. inversion Hd0; subst d0. rewrite (Hge eq_refl). apply (Hiff i d Hd).
+      * rewrite lset_nth_other in Hd0 by assumption. apply (Hiff j d0 Hd0).
+  - intro He. apply Hnx1. destruct (notified d <? notified d')%nat; [|exact He]. destruct (Hop (xv s)) as [_ Hve]. now rewrite Hve in He.
+  - exact Hnx2.
+Qed.
+
+Lemma xinv_step : forall cs s t s', (1 <= length cs)%nat -> Z.of_nat (length cs) < 2 ^ 64 ->
+  xinv cs s -> xstep cs s t = Some s' -> xinv cs s'.
+Proof.
+  intros cs s t s' Hn Hbig Hinv Hst. pose proof Hinv as (Hlen & Hreach & Hv & Hiff & Hend & Hnx).
+  destruct t as [|k]; cbn [xstep] in Hst.
+  - destruct (xnext s <? length cs)%nat eqn:El.
+    + apply Nat.ltb_lt in El.
+      destruct (nth_error cs (xnext s)) as [c|] eqn:Ec; [|discriminate].
+      destruct (nth_error (xdeps s) (xnext s)) as [d|] eqn:Ed; [|discriminate].
+      destruct (step_a c d) as [d'|] eqn:Es; [|discriminate]. inversion Hst; subst s'; clear Hst.
+      assert (Hne : vended (xv s) = false) by (destruct (vended (xv s)) eqn:E; [specialize (Hend eq_refl); lia | reflexivity]).
+      apply (xinv_dep_upd cs s (xnext s) c d 0%nat d' v_actret); try assumption.
+      * intro v. split; reflexivity.
+      * intros _ Hni. exists (VActRet (xnext s)). now apply vstep_actret_raw.
+      * intro X. congruence.
+      * destruct (pa d'); lia.
+    + apply Nat.ltb_ge in El. destruct (vended (xv s)) eqn:Ee; [discriminate|]. inversion Hst; subst s'; clear Hst.
+      unfold xinv; cbn [xdeps xv xnext]. split; [assumption|]. split; [assumption|]. split; [|split; [|split; [intros _; lia | assumption]]].
+      * eapply vinv_step; eauto. now apply vstep_actend_raw.
+      * intros i d Hd. rewrite <- (Hiff i d Hd). unfold v_actend. destruct (vertex_finished_pos _); cbn [vnot]; tauto.
+  - destruct (nth_error cs (Nat.div2 k)) as [c|] eqn:Ec; [|discriminate].
+    destruct (nth_error (xdeps s) (Nat.div2 k)) as [d|] eqn:Ed; [|discriminate].
+    destruct (if Nat.odd k then step_t c d else step_c c d) as [d'|] eqn:Es; [|discriminate]. inversion Hst; subst s'; clear Hst.
+    assert (Hi : (Nat.div2 k < length cs)%nat) by (apply nth_error_Some; congruence).
+    apply (xinv_dep_upd cs s (Nat.div2 k) c d (if Nat.odd k then 2%nat else 1%nat) d' v_ready); try assumption.
+    + destruct (Nat.odd k); exact Es.
+    + intro v. split; reflexivity.
+    + intros _ Hni. exists (VReady (Nat.div2 k)). now apply vstep_ready_raw.
+Qed.
+
+Lemma xinv_reach : forall cs s, (1 <= length cs)%nat -> Z.of_nat (length cs) < 2 ^ 64 -> XReach cs s -> xinv cs s.
+Proof.
+  intros cs s Hn Hb Hr. apply (inv_reachable xst (xstep cs) (xinv cs) (xinit (length cs))); try assumption.
+  - now apply xinv_init.
+  - intros s0 t s1 H0 H1. eapply xinv_step; eauto.
+Qed.
+
+Theorem af_vx_invoke_once : forall cs s, (1 <= length cs)%nat -> Z.of_nat (length cs) < 2 ^ 64 -> XReach cs s ->
+  (vinvoked (xv s) <= 1)%nat.
+Proof. intros cs s Hn Hb Hr. destruct (xinv_reach cs s Hn Hb Hr) as (_ & _ & Hv & _). eapply vinv_le1; eauto. Qed.
+
+Theorem af_vx_only_resolved : forall cs s, (1 <= length cs)%nat -> Z.of_nat (length cs) < 2 ^ 64 -> XReach cs s ->
+  vinvoked (xv s) = 1%nat ->
+  forall i c d, nth_error cs i = Some c -> nth_error (xdeps s) i = Some d -> notified d = 1%nat /\ really_ready c d = true.
+Proof.
+  intros cs s Hn Hb Hr H1 i c d Hc Hd. destruct (xinv_reach cs s Hn Hb Hr) as (Hlen & Hreach & Hv & Hiff & _).
+  assert (Hi : (i < length cs)%nat) by (apply nth_error_Some; congruence).
+  pose proof (vinv_invoked_all _ _ Hv H1 i Hi) as Hin. apply (Hiff i d Hd) in Hin. split; [assumption|].
+  destruct (dep_ok_fields c d (af_dep_protocol c d (Hreach i c d Hc Hd))) as (_ & _ & _ & _ & Hrr). now apply Hrr.
+Qed.
+
+Theorem af_vx_invoked_when_done : forall cs s, (1 <= length cs)%nat -> Z.of_nat (length cs) < 2 ^ 64 -> XReach cs s ->
+  vended (xv s) = true ->
+  (forall i c d, nth_error cs i = Some c -> nth_error (xdeps s) i = Some d -> ddone c d = true) ->
+  vinvoked (xv s) = 1%nat.
+Proof.
+  intros cs s Hn Hb Hr He Hdone. destruct (xinv_reach cs s Hn Hb Hr) as (Hlen & Hreach & Hv & Hiff & _).
+  apply (vinv_all_invoked _ _ Hv He). intros i Hi.
+  destruct (nth_error cs i) as [c|] eqn:Ec; [|apply nth_error_None in Ec; lia].
+  destruct (nth_error (xdeps s) i) as [d|] eqn:Ed; [|apply nth_error_None in Ed; lia].
+  apply (Hiff i d Ed).
+  destruct (dep_ok_fields c d (af_dep_protocol c d (Hreach i c d Ec Ed))) as (_ & _ & Hdd & _). now destruct (Hdd (Hdone i c d Ec Ed)).
+Qed.
+
+(* ---- refinement: what ENG sees of this vertex (sealed flags, invoked) moves only by ENG's moves ---- *)
+Inductive xabs_step (cs : list dcfg) : list (bool * bool) * nat -> list (bool * bool) * nat -> Prop :=
+| XA_stutter a : xabs_step cs a a
+| XA_seal_c i fls k cr tr : nth_error fls i = Some (cr, tr) -> xabs_step cs (fls, k) (lset i (true, tr) fls, k)
+| XA_seal_t i fls k cr tr : nth_error fls i = Some (cr, tr) -> xabs_step cs (fls, k) (lset i (cr, true) fls, k)
+| XA_invoke fls : all_resolved cs fls = true -> xabs_step cs (fls, 0%nat) (fls, 1%nat).   (* ENG: EInvoke, guard = resolved *)
+
+Lemma nth_error_combine : forall A B (l1 : list A) (l2 : list B) i a b,
+  nth_error (combine l1 l2) i = Some (a, b) -> nth_error l1 i = Some a /\ nth_error l2 i = Some b.
+Proof.
+  induction l1 as [|x l1 IH]; intros [|y l2] [|i] a b H; cbn in *; try discriminate.
+  - inversion H; subst. auto.
+  - now apply IH.
+Qed.
+
+Lemma really_ready_resolved : forall c d, really_ready c d = resolved c (cready d, tready d).
+Proof. reflexivity. Qed.
+
+Lemma all_resolved_of_invoked : forall cs s, (1 <= length cs)%nat -> Z.of_nat (length cs) < 2 ^ 64 -> XReach cs s ->
+  vinvoked (xv s) = 1%nat -> all_resolved cs (fst (xproj s)) = true.
+Proof.
+  intros cs s Hn Hb Hr H1. unfold all_resolved, xproj; cbn [fst]. apply forallb_forall. intros [c fl] Hin.
+  apply In_nth_error in Hin. destruct Hin as [i Hi]. apply nth_error_combine in Hi. destruct Hi as [Hc Hf].
+  destruct (nth_error (xdeps s) i) as [d|] eqn:Ed.
+  - rewrite (map_nth_error _ _ _ Ed) in Hf. inversion Hf; subst fl. cbn [fst snd].
+    rewrite <- really_ready_resolved. now destruct (af_vx_only_resolved cs s Hn Hb Hr H1 i c d Hc Ed).
+  - apply nth_error_None in Ed. assert (nth_error (map (fun d => (cready d, tready d)) (xdeps s)) i = None) by (apply nth_error_None; now rewrite map_length).
+    congruence.
+Qed.
+
+Theorem af_vx_refines : forall cs s t s', (1 <= length cs)%nat -> Z.of_nat (length cs) < 2 ^ 64 -> XReach cs s ->
+  xstep cs s t = Some s' -> xabs_step cs (xproj s) (xproj s').
+Proof.
+  intros cs s t s' Hn Hb Hr Hst.
+  assert (Hr' : XReach cs s') by (eapply reachable_step; eauto).
+  pose proof (af_vx_invoke_once cs s Hn Hb Hr) as Hle. pose proof (af_vx_invoke_once cs s' Hn Hb Hr') as Hle'.
+  destruct (xinv_reach cs s Hn Hb Hr) as (Hlen & Hreach & Hv & Hiff & Hend & Hnx).
+  (* a step that leaves the flags alone is a stutter or the invoke *)
+  assert (Hsame : map (fun d => (cready d, tready d)) (xdeps s') = map (fun d => (cready d, tready d)) (xdeps s) ->
+                  (vinvoked (xv s') = vinvoked (xv s) \/ vinvoked (xv s') = S (vinvoked (xv s))) ->
+                  xabs_step cs (xproj s) (xproj s')).
+  { intros Hm Hi. unfold xproj. rewrite Hm. destruct Hi as [Hi|Hi].
+    - rewrite Hi. apply XA_stutter.
+    - assert (H0 : vinvoked (xv s) = 0%nat) by lia. assert (H1 : vinvoked (xv s') = 1%nat) by lia. rewrite H0, H1.
+      apply XA_invoke. rewrite <- Hm. exact (all_resolved_of_invoked cs s' Hn Hb Hr' H1). }
+  (* a protocol step of dependency i *)
+  assert (Hdep : forall i c d t' d' (op : vst -> nat -> vst),
+             nth_error cs i = Some c -> nth_error (xdeps s) i = Some d -> dstep c d t' = Some d' ->
+             xdeps s' = lset i d' (xdeps s) -> xv s' = (if (notified d <? notified d')%nat then op (xv s) i else xv s) ->
+             (forall v, vinvoked (op v i) = vinvoked v \/ vinvoked (op v i) = S (vinvoked v)) ->
+             xabs_step cs (xproj s) (xproj s')).
+  { intros i c d t' d' op Hc Hd Hds Hxd Hxv Hop.
+    pose proof (af_dep_steps c d t' d' (Hreach i c d Hc Hd) Hds) as Hok. unfold dstep_ok in Hok.
+    apply andb_prop in Hok. destruct Hok as [_ Hfl]. apply orb_prop in Hfl. destruct Hfl as [Hfl|Hfl].
+    - apply andb_prop in Hfl. destruct Hfl as [Hc1 Ht1]. apply eqb_prop in Hc1. apply eqb_prop in Ht1.
+      apply Hsame.
+      + rewrite Hxd, lset_map, Hc1, Ht1. apply lset_same. now rewrite (map_nth_error _ _ _ Hd).
+      + rewrite Hxv. destruct (notified d <? notified d')%nat; [apply Hop | now left].
+    - apply andb_prop in Hfl. destruct Hfl as [Hn1 Hfl]. apply Nat.eqb_eq in Hn1.
+      assert (Hlt : (notified d <? notified d')%nat = false) by (apply Nat.ltb_ge; lia).
+      unfold xproj. rewrite Hxv, Hlt, Hxd, lset_map.
+      apply orb_prop in Hfl. destruct Hfl as [Hfl|Hfl]; apply andb_prop in Hfl; destruct Hfl as [Hs1 Hs2]; apply eqb_prop in Hs2.
+      + rewrite Hs1, Hs2. eapply XA_seal_c. now rewrite (map_nth_error _ _ _ Hd).
+      + rewrite Hs1, Hs2. eapply XA_seal_t. now rewrite (map_nth_error _ _ _ Hd). }
+  destruct t as [|k]; cbn [xstep] in Hst.
+  - destruct (xnext s <? length cs)%nat eqn:El.
+    + destruct (nth_error cs (xnext s)) as [c|] eqn:Ec; [|discriminate].
+      destruct (nth_error (xdeps s) (xnext s)) as [d|] eqn:Ed; [|discriminate].
+      destruct (step_a c d) as [d'|] eqn:Es; [|discriminate]. inversion Hst; subst s'; clear Hst.
+      apply (Hdep (xnext s) c d 0%nat d' v_actret); try assumption; try reflexivity. intro v. now left.
+    + destruct (vended (xv s)) eqn:Ee; [discriminate|]. inversion Hst; subst s'; clear Hst.
+      apply Hsame; [reflexivity|]. cbn [xv]. unfold v_actend.
+      destruct (vertex_finished_pos _); cbn [vinvoked]; [destruct (vertex_act_fires _); auto | auto].
+  - destruct (nth_error cs (Nat.div2 k)) as [c|] eqn:Ec; [|discriminate].
+    destruct (nth_error (xdeps s) (Nat.div2 k)) as [d|] eqn:Ed; [|discriminate].
+    destruct (if Nat.odd k then step_t c d else step_c c d) as [d'|] eqn:Es; [|discriminate]. inversion Hst; subst s'; clear Hst.
+    apply (Hdep (Nat.div2 k) c d (if Nat.odd k then 2%nat else 1%nat) d' v_ready); try assumption; try reflexivity.
+    + destruct (Nat.odd k); exact Es.
+    + intro v. unfold v_ready; cbn [vinvoked]. destruct (vertex_ready_fires _); auto.
+Qed.
+
+(* ... and ENG's EInvoke guard IS "every dependency resolved": in a data environment e that is a part of the eventual
+   values E, a dependency's view exists iff its flags are resolved under its configuration *)
+Lemma dep_view_resolved : forall e E dp, (forall d x, e d = Some x -> E d = Some x) ->
+  (dep_view e dp <> None <-> resolved (dep_cfg E dp) (dep_flags e dp) = true).
+Proof.
+  intros e E dp Hm. unfold dep_view, est_of, resolved, dep_cfg, dep_flags, est_true; cbn [has_cond holds fst snd].
+  destruct (cnd dp) as [[c ev]|]; cbn [is_some negb orb andb].
+  - destruct (e c) as [x|] eqn:Ec; cbn [is_some andb].
+    + rewrite (Hm c x Ec). destruct (Bool.eqb (truthy x) ev); cbn [negb orb].
+      * destruct (e (tgt dp)); cbn; split; congruence.
+      * split; [reflexivity | discriminate].
+    + split; [congruence | discriminate].
+  - destruct (e (tgt dp)); cbn; split; congruence.
+Qed.
+
+Theorem af_eng_guard_is_resolved : forall f v vx e E, (forall d x, e d = Some x -> E d = Some x) ->
+  (vertex_res f v vx e <> VBlocked <->
+   forallb (fun dp => resolved (dep_cfg E dp) (dep_flags e dp)) (deps vx) = true).
+Proof.
+  intros f v vx e E Hm. unfold vertex_res.
+  assert (Hv : views e (deps vx) <> None <-> forallb (fun dp => resolved (dep_cfg E dp) (dep_flags e dp)) (deps vx) = true).
+  { induction (deps vx) as [|dp l IH]; cbn [views forallb]; [split; [reflexivity | discriminate]|].
+    pose proof (dep_view_resolved e E dp Hm) as Hd.
+    destruct (dep_view e dp) as [vw|].
+    - assert (X : resolved (dep_cfg E dp) (dep_flags e dp) = true) by (apply Hd; discriminate). rewrite X. cbn [andb].
+      destruct (views e l); [split; [intros _; apply IH; discriminate | discriminate] | split; [congruence | intro Y; apply IH in Y; congruence]].
+    - split; [congruence|]. intro Y. apply andb_prop in Y. destruct Y as [Y _]. apply Hd in Y. congruence. }
+  rewrite <- Hv. destruct (views e (deps vx)) as [vs|].
+  - split; [discriminate|]. intros _. destruct (ess_failed _ _); [discriminate|]. destruct (f v _); discriminate.
+  - split; congruence.
+Qed.
+
+Example af_vx_example :
+  let cs := [ {| has_cond := true; holds := false |}; {| has_cond := false; holds := false |} ] in
+  let s := run xst (xstep cs) (xinit 2) [1;1;0;2;2;0;1; 4;4; 0;0; 0]%nat in
+  XReach cs s /\ vinvoked (xv s) = 1%nat /\ vended (xv s) = true.
+Proof. cbn zeta. split; [now exists [1;1;0;2;2;0;1; 4;4; 0;0; 0]%nat | vm_compute; split; reflexivity]. Qed.
+
+(* the closure counters fire finish / flush exactly under the guards ENG (EFinish0) and TERM (TFlush) use *)
+Theorem af_clo_refines : forall l e, let s := crun cinit l in let s' := crun cinit (l ++ [e]) in
+  (cfin s = None -> cfin s' = Some 0 -> cfired s' = true /\ cbound s' = 0) /\        (* EFinish0: every bound target sealed *)
+  (cflush s' = S (cflush s) -> cfin s' <> None /\ cfired s' = true /\ clive s' = 0). (* TFlush: finished, no vertex live *)
+Proof.
+  intros l e s s'. subst s s'. destruct (af_closure_counters (l ++ [e])) as (Hle & Hiff & Hff & Hf0 & _).
+  split.
+  - intros _ H. now apply Hf0.
+  - intro H. assert (H1 : cflush (crun cinit (l ++ [e])) = 1%nat) by lia. split; [now apply Hff | now apply Hiff].
+Qed.
+
+(* ======================================================================================== *)
+(* F. termination: every step decreases a measure, unflushed states are never stuck, a        *)
+(*    flushed state is finished with no vertex running                                        *)
+(* ======================================================================================== *)
+Lemma filter_len_le : forall A (p p' : A -> bool) l, (forall x, In x l -> p' x = true -> p x = true) ->
+  (length (filter p' l) <= length (filter p l))%nat.
+Proof.
+  induction l as [|x l IH]; intro H; cbn [filter]; [lia|].
+  assert (IH' : (length (filter p' l) <= length (filter p l))%nat) by (apply IH; intros y Hy; apply H; now right).
+  destruct (p' x) eqn:E'.
+  - rewrite (H x (or_introl eq_refl) E'). cbn [length]. lia.
+  - destruct (p x); cbn [length]; lia.
+Qed.
+
+Lemma filter_len_lt : forall A (p p' : A -> bool) l d, (forall x, In x l -> p' x = true -> p x = true) ->
+  In d l -> p d = true -> p' d = false -> (length (filter p' l) < length (filter p l))%nat.
+Proof.
+  induction l as [|x l IH]; intros d H Hin Hp Hp'; [destruct Hin|]. cbn [filter].
+  assert (Hl : forall y, In y l -> p' y = true -> p y = true) by (intros y Hy; apply H; now right).
+  pose proof (filter_len_le A p p' l Hl) as Hle.
+  destruct Hin as [->|Hin].
+  - rewrite Hp, Hp'. cbn [length]. lia.
+  - specialize (IH d Hl Hin Hp Hp'). destruct (p' x) eqn:E'.
+    + rewrite (H x (or_introl eq_refl) E'). cbn [length]. lia.
+    + destruct (p x); cbn [length]; lia.
+Qed.
+
+Lemma pad_length : forall n l, length (pad n l) = n.
+Proof. induction n as [|n IH]; intro l; cbn [pad]; [reflexivity|]. destruct l; cbn [length]; now rewrite IH. Qed.
+
+Section TermProofs.
+Variable f : nat -> list (option Z) -> option (list (option Z)).
+Variable g : graph.
+Variable pre : list (nat * option Z).
+Variable targets : list nat.
+Notation estep'' := (estep f g pre targets).
+Notation tstep' := (tstep f g pre targets).
+Notation trun' := (trun f g pre targets).
+Notation measure' := (measure g pre targets).
+Notation ids' := (ids g pre targets).
+
+Lemma res_outs_len : forall v vx e outs, res_outs vx (vertex_res f v vx e) = Some outs -> length outs = length (emits vx).
+Proof.
+  intros v vx e outs H. unfold vertex_res in H. destruct (views e (deps vx)); [|discriminate].
+  destruct (ess_failed _ _); [cbn in H; inversion H; apply pad_length|].
+  destruct (f v _); [|discriminate]. cbn in H. inversion H. apply pad_length.
+Qed.
+
+Definition rshape (s : est_) : Prop :=
+  forall v vx r outs, nth_error g v = Some vx -> ran s v = Some r -> res_outs vx r = Some outs -> length outs = length (emits vx).
+
+(* everything the measure counts only ever gets set *)
+Lemma estep_mono : forall b e b', estep'' b e = Some b' ->
+  (forall x, is_none (dv b' x) = true -> is_none (dv b x) = true) /\
+  (forall x, negb (trig b' x) = true -> negb (trig b x) = true) /\
+  (forall x, negb (act b' x) = true -> negb (act b x) = true) /\
+  (forall x, is_none (ran b' x) = true -> is_none (ran b x) = true) /\
+  (fin b <> None -> fin b' <> None) /\
+  (rshape b -> rshape b').
+Proof.
+  intros b e b' Hst.
+  assert (Hseal : forall d x t, dv b d = None -> b' = seal b d x t ->
+            (forall x0, is_none (dv b' x0) = true -> is_none (dv b x0) = true) /\
+            (forall x0, negb (trig b' x0) = true -> negb (trig b x0) = true) /\
+            (forall x0, negb (act b' x0) = true -> negb (act b x0) = true) /\
+            (forall x0, is_none (ran b' x0) = true -> is_none (ran b x0) = true) /\
+            (fin b <> None -> fin b' <> None) /\ (rshape b -> rshape b')).
+  { intros d x t Hn ->. unfold seal, rshape; cbn [dv trig act ran fin]. repeat split; auto.
+    intros x0 H. destruct (Nat.eq_dec x0 d) as [->|Hne]; [now rewrite Hn | now rewrite eupd_other in H]. }
+  assert (Htrig : forall d, b' = set_trig b d ->
+            (forall x0, is_none (dv b' x0) = true -> is_none (dv b x0) = true) /\
+            (forall x0, negb (trig b' x0) = true -> negb (trig b x0) = true) /\
+            (forall x0, negb (act b' x0) = true -> negb (act b x0) = true) /\
+            (forall x0, is_none (ran b' x0) = true -> is_none (ran b x0) = true) /\
+            (fin b <> None -> fin b' <> None) /\ (rshape b -> rshape b')).
+  { intros d ->. unfold set_trig, rshape; cbn [dv trig act ran fin]. repeat split; auto.
+    intros x0 H. destruct (Nat.eq_dec x0 d) as [->|Hne]; [rewrite bupd_same in H; discriminate | now rewrite bupd_other in H]. }
+  destruct e as [d | d | v | v i | v | v j | |]; cbn [estep] in Hst.
+  - destruct (dv b d) eqn:E; [discriminate|]. destruct (preset_env pre d); [|discriminate].
+    destruct (producer_of g d); [discriminate|]. injection Hst as Hst. eapply Hseal; [eassumption | symmetry; exact Hst].
+  - destruct (nmem d targets); [|discriminate]. injection Hst as Hst. apply (Htrig _ (eq_sym Hst)).
+  - destruct (nth_error g v); [|discriminate]. destruct (_ && _); [|discriminate]. inversion Hst; subst b'; clear Hst.
+    unfold rshape; cbn [dv trig act ran fin]. repeat split; auto.
+    intros x0 H. destruct (Nat.eq_dec x0 v) as [->|Hne]; [rewrite bupd_same in H; discriminate | now rewrite bupd_other in H].
+  - destruct (nth_error g v) as [vx|]; [|discriminate]. destruct (act b v); [|discriminate].
+    destruct (nth_error (deps vx) i) as [dp|]; [|discriminate]. destruct (cnd dp) as [[c ev]|].
+    + destruct (dv b c); [destruct (Bool.eqb _ _); [|discriminate]|]; injection Hst as Hst; apply (Htrig _ (eq_sym Hst)).
+    + injection Hst as Hst; apply (Htrig _ (eq_sym Hst)).
+  - destruct (nth_error g v) as [vx|] eqn:Ev; [|discriminate]. destruct (ran b v) eqn:Er; [discriminate|].
+    destruct (act b v); [|discriminate].
+    destruct (vertex_res f v vx (dv b)) eqn:Evr; [discriminate| | | |]; inversion Hst; subst b'; clear Hst;
+      unfold rshape; cbn [dv trig act ran fin];
+      (split; [auto|]; split; [auto|]; split; [auto|]; split;
+       [intros x0 H; destruct (Nat.eq_dec x0 v) as [->|Hne]; [now rewrite Er | now rewrite bupd_other in H]|]; split;
+       [destruct (fin b); cbn; congruence|]);
+      intros Hsh v0 vx0 r0 outs0 Hv0 Hr0 Ho0;
+      (destruct (Nat.eq_dec v0 v) as [->|Hne];
+       [ rewrite bupd_same in Hr0; rewrite Ev in Hv0; inversion Hv0; subst vx0;
+         destruct (fin b); cbn in Hr0; inversion Hr0; subst r0;
+         [ cbn in Ho0; inversion Ho0; apply pad_length
+         | rewrite <- Evr in Ho0; eapply res_outs_len; exact Ho0 ]
+       | rewrite bupd_other in Hr0 by assumption; eapply Hsh; eauto ]).
+  - destruct (nth_error g v) as [vx|]; [|discriminate]. destruct (ran b v) as [r|]; [|discriminate].
+    destruct (res_outs vx r); [|discriminate]. destruct (nth_error (emits vx) j) as [d|]; [|discriminate].
+    destruct (nth_error _ j); [|discriminate]. destruct (dv b d) eqn:E; [discriminate|]. injection Hst as Hst. eapply Hseal; [eassumption | symmetry; exact Hst].
+  - destruct (fin b) eqn:Ef; [discriminate|]. destruct (forallb _ _); [|discriminate]. inversion Hst; subst b'.
+    unfold rshape; cbn [dv trig act ran fin]. repeat split; auto; try discriminate.
+  - destruct (fin b) eqn:Ef; [discriminate|]. inversion Hst; subst b'.
+    unfold rshape; cbn [dv trig act ran fin]. repeat split; auto; try discriminate.
+Qed.
+
+Definition fin_w (o : option Z) : nat := if o then 0%nat else 1%nat.
+
+Lemma measure_lt_gen : forall s b',
+  flushed s = false ->
+  (forall x, is_none (dv b' x) = true -> is_none (dv (base s) x) = true) ->
+  (forall x, negb (trig b' x) = true -> negb (trig (base s) x) = true) ->
+  (forall x, negb (act b' x) = true -> negb (act (base s) x) = true) ->
+  (forall x, is_none (ran b' x) = true -> is_none (ran (base s) x) = true) ->
+  (fin (base s) <> None -> fin b' <> None) ->
+  ((exists d, In d ids' /\ is_none (dv (base s) d) = true /\ is_none (dv b' d) = false) \/
+   (exists d, In d ids' /\ trig (base s) d = false /\ trig b' d = true) \/
+   (exists v, In v (seq 0 (length g)) /\ act (base s) v = false /\ act b' v = true) \/
+   (exists v, In v (seq 0 (length g)) /\ ran (base s) v = None /\ ran b' v <> None) \/
+   (fin (base s) = None /\ fin b' <> None)) ->
+  (measure' {| base := b'; flushed := false |} < measure' s)%nat.
+Proof.
+  intros s b' Hfl M1 M2 M3 M4 M5 W. unfold measure; cbn [base flushed]. rewrite Hfl.
+  pose proof (filter_len_le _ (fun d => is_none (dv (base s) d)) (fun d => is_none (dv b' d)) ids' (fun x _ => M1 x)) as L1.
+  pose proof (filter_len_le _ (fun d => negb (trig (base s) d)) (fun d => negb (trig b' d)) ids' (fun x _ => M2 x)) as L2.
+  pose proof (filter_len_le _ (fun v => negb (act (base s) v)) (fun v => negb (act b' v)) (seq 0 (length g)) (fun x _ => M3 x)) as L3.
+  pose proof (filter_len_le _ (fun v => is_none (ran (base s) v)) (fun v => is_none (ran b' v)) (seq 0 (length g)) (fun x _ => M4 x)) as L4.
+  assert (L5 : ((if fin b' then 0 else 1) <= (if fin (base s) then 0 else 1))%nat).
+  { destruct (fin (base s)) eqn:E; [|destruct (fin b'); lia]. destruct (fin b'); [lia|]. exfalso. apply M5; congruence. }
+  destruct W as [(d & Hin & H1 & H2)|[(d & Hin & H1 & H2)|[(v & Hin & H1 & H2)|[(v & Hin & H1 & H2)|(H1 & H2)]]]].
+  - pose proof (filter_len_lt _ (fun d => is_none (dv (base s) d)) (fun d => is_none (dv b' d)) ids' d (fun x _ => M1 x) Hin H1 H2). lia.
+  - assert (X : (length (filter (fun d => negb (trig b' d)) ids') < length (filter (fun d => negb (trig (base s) d)) ids'))%nat).
+    { apply (filter_len_lt _ _ _ ids' d (fun x _ => M2 x) Hin); [now rewrite H1 | now rewrite H2]. } lia.
+  - assert (X : (length (filter (fun v => negb (act b' v)) (seq 0 (length g))) < length (filter (fun v => negb (act (base s) v)) (seq 0 (length g))))%nat).
+    { apply (filter_len_lt _ _ _ _ v (fun x _ => M3 x) Hin); [now rewrite H1 | now rewrite H2]. } lia.
+  - assert (X : (length (filter (fun v => is_none (ran b' v)) (seq 0 (length g))) < length (filter (fun v => is_none (ran (base s) v)) (seq 0 (length g))))%nat).
+    { apply (filter_len_lt _ _ _ _ v (fun x _ => M4 x) Hin); [now rewrite H1 | destruct (ran b' v); [reflexivity | congruence]]. } lia.
+  - rewrite H1. destruct (fin b'); [lia | congruence].
+Qed.
+
+Lemma in_ids_target : forall d, In d targets -> In d ids'.
+Proof. intros d H. unfold ids. apply in_or_app. now left. Qed.
+Lemma in_ids_preset : forall d x, preset_env pre d = Some x -> In d ids'.
+Proof.
+  intros d x H. unfold ids. apply in_or_app. right. apply in_or_app. left. unfold preset_env in H.
+  destruct (find _ pre) as [p|] eqn:E; [|discriminate]. apply find_some in E. destruct E as [Hin He].
+  apply Nat.eqb_eq in He. subst d. now apply in_map.
+Qed.
+Lemma in_ids_emit : forall v vx d, nth_error g v = Some vx -> In d (emits vx) -> In d ids'.
+Proof.
+  intros v vx d Hv Hd. unfold ids. apply in_or_app. right. apply in_or_app. right. apply in_flat_map.
+  exists vx. split; [eapply nth_error_In; eauto|]. apply in_or_app. now left.
+Qed.
+Lemma in_ids_dep : forall v vx dp d, nth_error g v = Some vx -> In dp (deps vx) ->
+  (d = tgt dp \/ exists ev, cnd dp = Some (d, ev)) -> In d ids'.
+Proof.
+  intros v vx dp d Hv Hdp Hd. unfold ids. apply in_or_app. right. apply in_or_app. right. apply in_flat_map.
+  exists vx. split; [eapply nth_error_In; eauto|]. apply in_or_app. right. apply in_flat_map. exists dp. split; [assumption|].
+  destruct Hd as [->|[ev Hc]]; [now left|]. rewrite Hc. right. now left.
+Qed.
+Lemma in_seq_vertex : forall v vx, nth_error g v = Some vx -> In v (seq 0 (length g)).
+Proof. intros v vx H. apply in_seq. assert (v < length g)%nat by (apply nth_error_Some; congruence). lia. Qed.
+
+Theorem tstep_decreases : forall s e s', tstep' s e = Some s' -> (measure' s' < measure' s)%nat.
+Proof.
+  intros s e s' Hst. unfold tstep in Hst. destruct (flushed s) eqn:Efl; [discriminate|].
+  destruct e as [e0|].
+  - destruct (match trig_of g (base s) e0 with Some d => trig (base s) d | None => false end) eqn:Eg; [discriminate|].
+    destruct (estep'' (base s) e0) as [b'|] eqn:Es; [|discriminate]. inversion Hst; subst s'; clear Hst.
+    destruct (estep_mono _ _ _ Es) as (M1 & M2 & M3 & M4 & M5 & _).
+    apply measure_lt_gen; try assumption.
+    destruct e0 as [d | d | v | v i | v | v j | |]; cbn [estep trig_of] in Es, Eg.
+    + left. destruct (dv (base s) d) eqn:E; [discriminate|]. destruct (preset_env pre d) as [x|] eqn:Ep; [|discriminate].
+      destruct (producer_of g d); [discriminate|]. inversion Es; subst b'. exists d.
+      split; [eapply in_ids_preset; eauto|]. split; [now rewrite E|]. unfold seal; cbn [dv]. now rewrite eupd_same.
+    + right; left. destruct (nmem d targets) eqn:Em; [|discriminate]. inversion Es; subst b'. exists d.
+      split; [apply in_ids_target; now apply nmem_in|]. split; [assumption|]. unfold set_trig; cbn [trig]. apply bupd_same.
+    + right; right; left. destruct (nth_error g v) as [vx|] eqn:Ev; [|discriminate].
+      destruct (negb (act (base s) v) && _) eqn:G; [|discriminate]. inversion Es; subst b'. exists v.
+      apply andb_prop in G. destruct G as [G _]. apply negb_true_iff in G.
+      split; [eapply in_seq_vertex; eauto|]. split; [assumption|]. cbn [act]. apply bupd_same.
+    + right; left. destruct (nth_error g v) as [vx|] eqn:Ev; [|discriminate]. destruct (act (base s) v); [|discriminate].
+      destruct (nth_error (deps vx) i) as [dp|] eqn:Ei; [|discriminate]. apply nth_error_In in Ei.
+      destruct (cnd dp) as [[c ev]|] eqn:Ec.
+      * destruct (dv (base s) c) as [x|].
+        -- destruct (Bool.eqb _ _); [|discriminate]. inversion Es; subst b'. exists (tgt dp).
+           split; [eapply in_ids_dep; eauto|]. split; [assumption|]. unfold set_trig; cbn [trig]. apply bupd_same.
+        -- inversion Es; subst b'. exists c. split; [eapply in_ids_dep; eauto|]. split; [assumption|].
+           unfold set_trig; cbn [trig]. apply bupd_same.
+      * inversion Es; subst b'. exists (tgt dp). split; [eapply in_ids_dep; eauto|]. split; [assumption|].
+        unfold set_trig; cbn [trig]. apply bupd_same.
+    + right; right; right; left. destruct (nth_error g v) as [vx|] eqn:Ev; [|discriminate].
+      destruct (ran (base s) v) eqn:Er; [discriminate|]. destruct (act (base s) v); [|discriminate]. exists v.
+      split; [eapply in_seq_vertex; eauto|]. split; [assumption|].
+      destruct (vertex_res f v vx (dv (base s))); [discriminate| | | |]; inversion Es; subst b'; cbn [ran]; rewrite bupd_same; discriminate.
+    + left. destruct (nth_error g v) as [vx|] eqn:Ev; [|discriminate]. destruct (ran (base s) v) as [r|]; [|discriminate].
+      destruct (res_outs vx r) as [outs|]; [|discriminate]. destruct (nth_error (emits vx) j) as [d|] eqn:Ed; [|discriminate].
+      destruct (nth_error outs j); [|discriminate]. destruct (dv (base s) d) eqn:E; [discriminate|]. inversion Es; subst b'. exists d.
+      split; [eapply in_ids_emit; eauto using nth_error_In|]. split; [now rewrite E|]. unfold seal; cbn [dv]. now rewrite eupd_same.
+    + right; right; right; right. destruct (fin (base s)) eqn:Ef; [discriminate|]. destruct (forallb _ _); [|discriminate].
+      inversion Es; subst b'. cbn [fin]. split; [reflexivity | discriminate].
+    + right; right; right; right. destruct (fin (base s)) eqn:Ef; [discriminate|]. inversion Es; subst b'. cbn [fin].
+      split; [reflexivity | discriminate].
+  - destruct (fin (base s)); [|discriminate]. destruct (existsb _ _); [discriminate|]. inversion Hst; subst s'.
+    unfold measure; cbn [base flushed]. rewrite Efl. lia.
+Qed.
+
+Definition tinv (s : tst) : Prop :=
+  rshape (base s) /\ (flushed s = true -> fin (base s) <> None /\ existsb (running g (base s)) (seq 0 (length g)) = false).
+
+Lemma tinv_init : tinv tinit.
+Proof. unfold tinv, tinit, rshape; cbn. split; [intros; discriminate | discriminate]. Qed.
+
+Lemma tinv_step : forall s e s', tinv s -> tstep' s e = Some s' -> tinv s'.
+Proof.
+  intros s e s' [Hsh Hfl] Hst. unfold tstep in Hst. destruct (flushed s) eqn:Ef; [discriminate|]. destruct e as [e0|].
+  - destruct (match trig_of g (base s) e0 with Some d => trig (base s) d | None => false end); [discriminate|].
+    destruct (estep'' (base s) e0) as [b'|] eqn:Es; [|discriminate]. inversion Hst; subst s'.
+    destruct (estep_mono _ _ _ Es) as (_ & _ & _ & _ & _ & Hr). split; [now apply Hr | discriminate].
+  - destruct (fin (base s)) eqn:E; [|discriminate]. destruct (existsb _ _) eqn:Ex; [discriminate|]. inversion Hst; subst s'.
+    split; [assumption|]. intros _. cbn [base]. split; [congruence | assumption].
+Qed.
+
+Lemma tinv_run : forall l s, tinv s -> tinv (trun' s l).
+Proof.
+  induction l as [|e r IH]; intros s Hs; cbn [trun]; [assumption|].
+  apply IH. destruct (tstep' s e) as [s'|] eqn:E; [eapply tinv_step; eauto | assumption].
+Qed.
+
+Lemma tstep_progress : forall s, tinv s -> flushed s = false -> exists e s', tstep' s e = Some s'.
+Proof.
+  intros s [Hsh _] Hfl. destruct (fin (base s)) as [code|] eqn:Ef.
+  - destruct (existsb (running g (base s)) (seq 0 (length g))) eqn:Ex.
+    + apply existsb_exists in Ex. destruct Ex as [v [_ Hr]]. unfold running in Hr.
+      destruct (nth_error g v) as [vx|] eqn:Ev; [|discriminate]. destruct (ran (base s) v) as [r|] eqn:Er; [|discriminate].
+      destruct (res_outs vx r) as [outs|] eqn:Eo; [|discriminate]. apply existsb_exists in Hr. destruct Hr as [d [Hd Hn]].
+      apply In_nth_error in Hd. destruct Hd as [j Hj].
+      assert (Hlen : length outs = length (emits vx)) by (eapply Hsh; eauto).
+      destruct (nth_error outs j) as [x|] eqn:Ex.
+      * exists (TBase (ERel v j)). unfold tstep. rewrite Hfl. cbn [trig_of estep]. rewrite Ev, Er, Eo, Hj, Ex.
+        destruct (dv (base s) d); [discriminate|]. eauto.
+      * apply nth_error_None in Ex. assert (j < length (emits vx))%nat by (apply nth_error_Some; congruence). lia.
+    + exists TFlush. unfold tstep. rewrite Hfl, Ef, Ex. eauto.
+  - exists (TBase EFinishErr). unfold tstep. rewrite Hfl. cbn [trig_of estep]. rewrite Ef. eauto.
+Qed.
+
+Lemma tsteps_bound : forall l s, (tsteps f g pre targets s l + measure' (trun' s l) <= measure' s)%nat.
+Proof.
+  induction l as [|e r IH]; intro s; cbn [tsteps trun]; [lia|].
+  destruct (tstep' s e) as [s'|] eqn:E.
+  - pose proof (tstep_decreases _ _ _ E). specialize (IH s'). lia.
+  - apply IH.
+Qed.
+
+Theorem af_terminates_finished : forall l, let s := trun' tinit l in
+  (forall e s', tstep' s e = Some s' -> (measure' s' < measure' s)%nat) /\
+  (flushed s = false -> exists e s', tstep' s e = Some s') /\
+  (flushed s = true -> fin (base s) <> None /\ forall v, running g (base s) v = false) /\
+  (tsteps f g pre targets tinit l + measure' s <= measure' tinit)%nat.
+Proof.
+  intros l s. subst s. pose proof (tinv_run l _ tinv_init) as Hi. split; [apply tstep_decreases|]. split; [now apply tstep_progress|].
+  split; [|apply tsteps_bound]. intro Hfl. destruct Hi as [_ Hi]. destruct (Hi Hfl) as [Hf Hr]. split; [assumption|].
+  intro v. destruct (running g (base (trun' tinit l)) v) eqn:E; [|reflexivity]. exfalso.
+  assert (Hv : In v (seq 0 (length g))).
+  { unfold running in E. destruct (nth_error g v) as [vx|] eqn:Ev; [eapply in_seq_vertex; eauto | discriminate]. }
+  assert (existsb (running g (base (trun' tinit l))) (seq 0 (length g)) = true) by (apply existsb_exists; eauto). congruence.
+Qed.
+
+(* the base of a TERM run is an ENG run: every theorem of part D applies to it *)
+Lemma trun_base : forall l s, exists l0, base (trun' s l) = erun f g pre targets (base s) l0.
+Proof.
+  induction l as [|e r IH]; intro s; cbn [trun]; [now exists []|].
+  destruct (tstep' s e) as [s'|] eqn:E; [|apply IH].
+  destruct (IH s') as [l0 Hl0]. unfold tstep in E. destruct (flushed s); [discriminate|]. destruct e as [e0|].
+  - destruct (match trig_of g (base s) e0 with Some d => trig (base s) d | None => false end); [discriminate|].
+    destruct (estep'' (base s) e0) as [b'|] eqn:Es; [|discriminate]. inversion E; subst s'. cbn [base] in Hl0.
+    exists (e0 :: l0). cbn [erun]. now rewrite Es.
+  - destruct (fin (base s)); [|discriminate]. destruct (existsb _ _); [discriminate|]. inversion E; subst s'. now exists l0.
+Qed.
+
+Theorem af_reset_idempotent : forall s l, ereset s = einit /\ erun f g pre targets (ereset s) l = erun f g pre targets einit l.
+Proof. intros s l. split; reflexivity. Qed.
+End TermProofs.
+
+Example af_term_example :
+  let s := trun (proc_fn ex_flags) ex_g ex_pre [2%nat] tinit (map TBase ex_sched ++ [TFlush]) in
+  flushed s = true /\ fin (base s) = Some 0 /\ tsteps (proc_fn ex_flags) ex_g ex_pre [2%nat] tinit (map TBase ex_sched ++ [TFlush]) = 11%nat.
 Proof. vm_compute. repeat split; reflexivity. Qed.
